@@ -110,3 +110,27 @@ class Run:
             self.prop, self.tier, "FAIL" if rc else "ok", wall, self.cov["states"],
             self.cov["traces_validated_against_impl"], self.cov["evaluations"], self.cov["drift"]))
         return rc
+
+
+class ExtraRun(Run):
+    """A check of specification growth beyond the listed properties (./check <name>): same accounting, but the outcome goes to /verif/extras/<name>.json,
+    a failing clause or any drift (the implementation leaving the specification) is printed as a MISMATCH line - never as a VIOLATION of a listed property."""
+
+    def finish(self):
+        wall = time.time() - self.t0
+        groups = {}
+        for sig, w in self.violations:
+            groups.setdefault(sig, []).append(w)
+        self.cov["violation_signatures"] = sorted(groups)
+        ev = {"extra": self.prop, "tier": self.tier, "seed": seed(), "coverage": self.cov, "assumptions": self.assumptions, "wall_s": round(wall, 2),
+              "mismatches": len(groups), "drift": self.cov["drift"]}
+        edir = os.path.join(os.environ.get("VERIF_EVIDENCE_DIR") or VERIF, "extras")
+        os.makedirs(edir, exist_ok=True)
+        with open(os.path.join(edir, self.prop + ".json"), "w") as f:
+            json.dump(ev, f, indent=1, default=str)
+        for s, ws in sorted(groups.items()):
+            print("MISMATCH extra=%s  # %s (%d records) e.g. %s" % (self.prop, s, len(ws), json.dumps(ws[0], default=str)[:400]))
+        rc = 1 if (groups or self.cov["drift"]) else 0
+        print("%s %s: %s in %.1fs  states=%d traces=%d evals=%d drift=%d" % (
+            self.prop, self.tier, "MISMATCH" if rc else "ok", wall, self.cov["states"], self.cov["traces_validated_against_impl"], self.cov["evaluations"], self.cov["drift"]))
+        return rc
